@@ -70,6 +70,7 @@ class Ctx:
         self.divmod_cache = {}
         self.sqrt_terms = {}
         self.sum_tags = {}
+        self.stub_mode = 0
         self.lemma_obligations = {}
         self.ghost = {}
         self._leaf_seen = {}
